@@ -74,6 +74,7 @@ func oracle(stream, in, outp string) {
 	defer out.Close()
 	defer writeStats(outp)
 	s := newSUT("istio-system")
+	defer s.closeLive()
 	verdict := ""
 	caseOpen := false
 	idx := 0
@@ -240,7 +241,7 @@ func oracle(stream, in, outp string) {
 						fmt.Sprintf("port %d client-sends-mtls %v effective %s namespace-level %s", p, composed, eff, nsLevel))
 				}
 			}
-		case "cl":
+		case "cl", "hc":
 			res := s.apply(f)
 			if res == "crash" || res == "bad-op" {
 				fail("never-crashes", "crash", strings.Join(f, " "))
